@@ -21,6 +21,10 @@ pub struct C15 {
     /// a preferred candidate that selects a sibling before the question is revealed and is
     /// then backtracked over
     pub extended: bool,
+    /// reveal unions get a further member that OVERLAPS the group's version set (shares some
+    /// of its candidates and adds candidates of other groups), or repeats it under another
+    /// id: the same candidate then occurs twice within one requirement
+    pub overlap: bool,
 }
 
 pub struct Plan {
@@ -343,6 +347,39 @@ impl C15 {
             reveal_reqs.push(Req::Single(u.vsets.len() - 1));
             chain = Some((c0, c1));
         }
+        if self.overlap {
+            let reveal_unions: Vec<usize> = reveal_reqs
+                .iter()
+                .filter_map(|r| if let Req::Union(ui) = r { Some(*ui) } else { None })
+                .collect();
+            for ui in reveal_unions {
+                let Some(pos) = u.unions[ui].members.iter().position(|&m| u.vsets[m].pkg == 0 && u.vsets[m].matches.len() < n) else {
+                    continue;
+                };
+                if !t.chance(2, 3) {
+                    continue;
+                }
+                let base = u.vsets[u.unions[ui].members[pos]].matches.clone();
+                let mut m: Vec<usize> = base.iter().copied().filter(|_| t.chance(1, 2)).collect();
+                if m.is_empty() {
+                    m.push(base[t.below(base.len())]);
+                }
+                let outside: Vec<usize> = (0..n).filter(|i| !base.contains(i)).collect();
+                if !t.chance(1, 4) {
+                    for _ in 0..1 + t.below(3) {
+                        if !outside.is_empty() {
+                            m.push(outside[t.below(outside.len())]);
+                        }
+                    }
+                }
+                m.sort_unstable();
+                m.dedup();
+                u.vsets.push(VSet { id: 0, pkg: 0, matches: m });
+                let vs = u.vsets.len() - 1;
+                let at = if t.chance(3, 4) { pos + 1 } else { pos };
+                u.unions[ui].members.insert(at, vs);
+            }
+        }
         // ids: sparse for solvables (crossing chunk boundaries), dense elsewhere
         let params = crate::gen::Params::default();
         crate::gen::gen_ids(&mut t, &mut u, &params);
@@ -398,7 +435,7 @@ impl Property for C15 {
         600
     }
     fn rule(&self) -> String {
-        format!("tape -> candidate count n (1..{}, biased to 2^k-1, 2^k, 2^k+1) + listing order + preference order + REVEAL PLAN: a generated partition of the candidates into groups that the encoder meets, in generated order, through root union requirements (group | always-installable helper), through requirements of hinted-but-unselected helper candidates (eager encoding), or only through the final requirements (stage extended adds: reveal unions whose first member is an EMPTY version set of another package, questions whose last requirement is such a union, and a dependency chain whose preferred head first selects some sibling candidate by a decision, so that the question is revealed under that decision and survives the backtrack); then for every pair i<j (all pairs when n<={}, else {} generated pairs) the problem 'root requires {{i}} and {{j}}' and for every i the problem 'root requires {{i}}' are solved - with a fresh solver per question or (generated) all through ONE reused solver - and compared with the reference resolver (pair => Unsolvable, single => Ok containing i). Non-trivial: n>=3 and the pair straddles two reveal groups. Distinct = distinct (plan hash, pair); evaluations = number of solver runs.", self.max_n, self.all_pairs_upto, self.sample_pairs)
+        format!("tape -> candidate count n (1..{}, biased to 2^k-1, 2^k, 2^k+1) + listing order + preference order + REVEAL PLAN: a generated partition of the candidates into groups that the encoder meets, in generated order, through root union requirements (group | always-installable helper), through requirements of hinted-but-unselected helper candidates (eager encoding), or only through the final requirements (stage extended adds: reveal unions whose first member is an EMPTY version set of another package, questions whose last requirement is such a union, and a dependency chain whose preferred head first selects some sibling candidate by a decision, so that the question is revealed under that decision and survives the backtrack; stage overlap adds: reveal unions with a further member that overlaps the group's version set, so that a candidate occurs twice within one requirement); then for every pair i<j (all pairs when n<={}, else {} generated pairs) the problem 'root requires {{i}} and {{j}}' and for every i the problem 'root requires {{i}}' are solved - with a fresh solver per question or (generated) all through ONE reused solver - and compared with the reference resolver (pair => Unsolvable, single => Ok containing i). Non-trivial: n>=3 and the pair straddles two reveal groups. Distinct = distinct (plan hash, pair); evaluations = number of solver runs.", self.max_n, self.all_pairs_upto, self.sample_pairs)
     }
     fn describe(&self, tape: &[u16]) -> String {
         let p = self.plan(tape);
